@@ -307,6 +307,18 @@ def _variant_arms(F, B, b):
     return None
 
 
+def _decrements(F, key):
+    eng = F.__dict__.get("_c12_engine")
+    if eng is None:
+        from .. import effects as _eff
+
+        eng = F.__dict__["_c12_engine"] = _eff.Engine(F)
+    try:
+        return any(e.exit == "ret" and vget(e.vec, "dec") > 0 for e in eng.summary(key))
+    except Exception:
+        return False
+
+
 def _released_types(F, b, blocks, gmap, depth):
     """Type arguments (as written in terms of the outermost caller's parameters) at which `Arc::from_raw` is called in the given
     blocks of body b, following calls of private local helpers with their generic arguments substituted."""
@@ -332,6 +344,13 @@ def _released_types(F, b, blocks, gmap, depth):
                         parked = True
             if not parked:
                 out.append(ga[0] if ga else "?")
+            else:
+                # ... unless the arm then lowers the count through that transient itself (the release routine written out:
+                # `if a.release() { acquire; a.drop_slow() }` - the decrement is Arc<X>'s, at the address the transient gives)
+                from .. import model as _model
+
+                if any(b["blocks"][bj]["term"]["k"] == "call" and atomics.atomic_class(b["blocks"][bj]["term"]) == _model.ATOMIC_RMW_SUB for bj in blocks):
+                    out.append(ga[0] if ga else "?")
         elif c in ("core::ptr::read", "<*const T>::read", "<*mut T>::read") and isinstance(r, dict):
             # `let _ = ptr::read(arc)` with `arc: &Arc<X>`: an `Arc<X>` materialised bitwise and dropped - the same release
             for a in r["args"]:
@@ -340,6 +359,9 @@ def _released_types(F, b, blocks, gmap, depth):
                     if inner:
                         x = F.ts(inner[0])
                         out.append(gmap.get(x, x))
+        elif cb is not None and not balance.is_api(F, cb) and F.handle_name((cb.get("impl") or {}).get("self_ty", -1)) == "Arc" and _decrements(F, c) and ga:
+            # `a.release()` - the private decrement of `Arc<X>` - applied to the transient of the arm's type
+            out.append(ga[0])
         elif cb is not None and depth < 3 and not balance.is_api(F, cb):
             names = [g["name"] for g in cb.get("generics", []) if g["kind"] == "type"]
             sub = dict(zip(names, ga))
